@@ -67,11 +67,11 @@ CLAIMED = {
          "Held-on-N-sequences exploration; two genuine defects (controls reset by restart, fee control not persisted) were repaired by fix: commits and kept as regression replays.",
          "Non-decreasing timestamps; on-chain fees capped at 150 sat per request.",
          "C12"),
- "C17": ("property-based testing with constructed tamper operators: round-trip and injectivity oracles over three authentication layers (LSS per-value tag, shared mutation-list tag in both implementations, nonce binding); start-up group driving vlsd external-persist driver (init_state) against a tampering storage",
+ "C17": ("property-based testing with constructed tamper operators: round-trip and injectivity oracles over three authentication layers (LSS per-value tag, shared mutation-list tag in both implementations, nonce binding); start-up group driving vlsd external-persist driver (init_state) against a tampering storage; client-driver group: lightning-storage-server's PrivClient over tonic against an in-process storage server that knows the transport secret and tampers with read replies and put-conflict lists (bit flips, truncation to every length incl. nothing, value swap, version change, rename, injected records, replayed replies, tags over an empty nonce or under another secret): every record handed back must be one this client wrote",
          "Held-on-N-cases exploration; collisions between record lists whose key|version|value concatenations are equal are the genuine unframed-input weakness, listed as known findings (one signature per layer); any other collision or accepted tamper (other key, version, swapped, truncated, damaged tag, replayed or restart-repeated nonce) is reported.",
          "HMAC-SHA256/ChaCha20 trusted; versions < 2^63.",
          "C17"),
- "C01": ("stateful property-based testing: generated request histories on a real channel, executed at API level or through the vls-protocol-signer wire handlers at negotiated protocol versions 4, 5 and 6 (old combined validate+revoke, point requests that return secrets), ghost ledger of disclosed secrets vs independently verified accepted validations, restarts and storage faults (failed channel write, answer, crash-restart) injected; also with the on-chain validator factory on a channel with confirmed funding, and on a channel whose SetupChannel was refused",
+ "C01": ("stateful property-based testing: generated request histories on a real channel, executed at API level or through the vls-protocol-signer wire handlers at negotiated protocol versions 4, 5 and 6 (old combined validate+revoke, point requests that return secrets), ghost ledger of disclosed secrets vs independently verified accepted validations, restarts and storage faults (failed channel write, answer, crash-restart) injected; also with the on-chain validator factory on a channel with confirmed funding, on a channel whose SetupChannel was refused, and under an operator carve-out policy filter (the rules the guarantee is tagged with stay errors, every other policy-* rule is only logged)",
          "Held-on-N-histories exploration of the holder revocation state machine against an explicit ledger oracle; not a proof.",
          "Trusted: LDK commitment/HTLC transaction builders used for the reference transactions, libsecp256k1 verification.",
          "C01"),
